@@ -15,7 +15,24 @@ if d.get("argv"):
     build_impl(release=False, cli=True)
     argv = [sfs_path()] + d["argv"][1:]
     stdin = bytes.fromhex(d["stdin_hex"]) if d.get("stdin_hex") else (d.get("stdin", "").encode())
-    p = subprocess.run(argv, input=stdin, capture_output=True)
+    if d.get("first_write"):
+        # stdin as a pipe whose first write carries only the first bytes
+        import time
+        fw = int(d["first_write"])
+        q = subprocess.Popen(argv, stdin=subprocess.PIPE, stdout=subprocess.PIPE, stderr=subprocess.PIPE)
+        try:
+            q.stdin.write(stdin[:fw]); q.stdin.flush(); time.sleep(0.5); q.stdin.write(stdin[fw:])
+        except OSError:
+            pass
+        p = subprocess.CompletedProcess(argv, 0)
+        try:
+            p.stdout, p.stderr = q.communicate()
+        except Exception:
+            p.stdout, p.stderr = b"", b""
+        p.returncode = q.returncode
+        print("stdin delivered as a first write of %d bytes, then the rest" % fw)
+    else:
+        p = subprocess.run(argv, input=stdin, capture_output=True)
     print("argv:", argv)
     print("exit:", p.returncode)
     print("stdout:", p.stdout[:2000])
